@@ -163,4 +163,7 @@ HARNESSES = [
     dict(name="serial_equiv_dequeue", file="serial_equiv.c", label="bounded(list nodes <= 3)",
          timeout=600, fp={"fun": "stub_fun"}, defines={"OP_DEQUEUE": None},
          cases=[dict(id="k3", defines={"KQ": 3, "KR": 2}, unwind=7, tier="quick")]),
+    dict(name="enqueue_copy", file="enqueue_copy.c", label="bounded(block size <= 8)",
+         fp={"submit": "stub_submit", "get_status": "stub_get_status"}, unwind=10,
+         timeout=600, cases=[dict(id="default", tier="quick")]),
 ]
